@@ -43,6 +43,11 @@ def polynomial_fitting(
         at the input point of the fitted function (can be accessed with :attr:`.value`).
     """
 
+    if order > len(list(x_data)) - 1:
+        raise ValueError(
+            "The order cannot be larger than the number of len(x_data) -1. "
+        )
+
     fitted_params = list(Polynomial.fit(x_data, y_data, order).convert().coef)
     fitted_value = cast(float, Polynomial(fitted_params)(point))
     return FittedResult(parameters=fitted_params, value=fitted_value)
